@@ -273,6 +273,10 @@ def _ods_text(element, location):
         if child.tag == _TEXT_PREFIX + "s":
             count_text = child.attrib.get(_TEXT_PREFIX + "c", "1")
             result += " " * _ods_count("text:c", count_text, 0, location)
+            if len(result) > _MAX_ODS_REPEAT_COUNT:
+                raise errors.DataFormatError(
+                    "text of cell must have at most %d characters" % _MAX_ODS_REPEAT_COUNT, location
+                )
         elif child.tag == _TEXT_PREFIX + "tab":
             result += "\t"
         elif child.tag == _TEXT_PREFIX + "line-break":
@@ -361,6 +365,8 @@ def ods_rows(source_ods_path, sheet=1):
                 cell_value = "\n".join(_ods_text(text_p, location) for text_p in text_ps)
             except RecursionError:
                 raise errors.DataFormatError("text of cell is nested too deeply", location)
+            if len(row) + repeated_count > _MAX_ODS_REPEAT_COUNT:
+                raise errors.DataFormatError("row must have at most %d cells" % _MAX_ODS_REPEAT_COUNT, location)
             row.extend([cell_value] * repeated_count)
             location.advance_cell(repeated_count)
         yield row
